@@ -235,7 +235,7 @@ def explore_scenario_run(ix, symbols=None, cls="behave.model:Scenario", mutate=N
             key = "f%d" % i
             cur = g.get(key, "start")
             t = {("start", "scenario"): "scn", ("scn", "step"): "ann", ("ann", "step"): "ann",
-                 ("scn", "match"): "m", ("ann", "match"): "m", ("r", "match"): "m", ("m", "result"): "r"}
+                 ("ann", "match"): "m", ("r", "match"): "m", ("m", "result"): "r"}
             nxt = t.get((cur, m))
             if nxt is None:
                 g.setdefault("fmt.err", "formatter %d: %s after %s" % (i, m, cur))
@@ -319,6 +319,7 @@ def explore_scenario_run(ix, symbols=None, cls="behave.model:Scenario", mutate=N
     stubs["NameReStub.search"] = name_search
     attr_stubs = {"RunnerStub.aborted": lambda it, st, base, node: w.read_aborted(it, st, node)}
     it = Interp(ix, stubs=stubs, on_event=mons, name="Scenario.run", on_return=on_return, attr_stubs=attr_stubs)
+    it.same_seq_same_length = True
 
     st = w.new_state()
     mons.init(st)
